@@ -180,6 +180,103 @@ void prop_algebra(Tape &t, Ctx &c) {
     });
 }
 
+// ------------------------------------------------------------------ block values (2x2 static_matrix): spmv, residual, transpose, product, inner product
+typedef amgcl::static_matrix<double, 2, 2> blk2;
+typedef amgcl::static_matrix<double, 2, 1> rhs2;
+
+static Csr<blk2> gen_global_blk(Tape &t, ptrdiff_t n, ptrdiff_t m) {
+    Csr<double> S = gen_sparse_int(t, n, m, 1, t.b());
+    Csr<blk2> A; A.n = n; A.m = m; A.ptr = S.ptr; A.col = S.col; A.val.resize(S.val.size());
+    for (auto &v : A.val) { bool nz = false; for (int q = 0; q < 4; ++q) { v(q) = static_cast<double>(t.u(-3, 3)); nz = nz || v(q) != 0; } if (!nz) v(0) = 1; }
+    return A;
+}
+static Dense<cplx> dense_blk(const Csr<blk2> &A) {
+    Dense<cplx> D(A.n * 2, A.m * 2);
+    for (ptrdiff_t i = 0; i < A.n; ++i) for (ptrdiff_t j = A.ptr[i]; j < A.ptr[i + 1]; ++j) for (int p = 0; p < 2; ++p) for (int q = 0; q < 2; ++q) D(2 * i + p, 2 * A.col[j] + q) += A.val[j](p, q);
+    return D;
+}
+template <class DM>
+static Dense<cplx> assemble_blk(const DM &A, ptrdiff_t gn, ptrdiff_t gm, ptrdiff_t row_beg, std::string &err) {
+    std::vector<double> trip; // (grow, gcol, 4 values)
+    auto loc = A.local(); auto rem = A.remote();
+    ptrdiff_t shift = A.loc_col_shift();
+    if (!loc || !rem) err = "matrix not in build state";
+    else for (size_t i = 0; i < loc->nrows; ++i) {
+        for (ptrdiff_t j = loc->ptr[i]; j < loc->ptr[i + 1]; ++j) { trip.push_back(double(row_beg + i)); trip.push_back(double(loc->col[j] + shift)); for (int q = 0; q < 4; ++q) trip.push_back(loc->val[j](q)); }
+        for (ptrdiff_t j = rem->ptr[i]; j < rem->ptr[i + 1]; ++j) { trip.push_back(double(row_beg + i)); trip.push_back(double(rem->col[j])); for (int q = 0; q < 4; ++q) trip.push_back(rem->val[j](q)); }
+    }
+    std::vector<double> all = allgatherv(trip, MPI_DOUBLE);
+    Dense<cplx> D(gn * 2, gm * 2);
+    for (size_t k = 0; k + 5 < all.size(); k += 6) {
+        ptrdiff_t r = static_cast<ptrdiff_t>(all[k]), c = static_cast<ptrdiff_t>(all[k + 1]);
+        if (r < 0 || r >= gn || c < 0 || c >= gm) { err = "assembled entry out of range"; continue; }
+        for (int p = 0; p < 2; ++p) for (int q = 0; q < 2; ++q) D(2 * r + p, 2 * c + q) += all[k + 2 + p * 2 + q];
+    }
+    return D;
+}
+
+static void prop_algebra_blk(Tape &t, Ctx &c) {
+    typedef ab::builtin<blk2> BB;
+    typedef amgcl::mpi::distributed_matrix<BB> DMB;
+    const int k = size_ref(), me = rank_ref();
+    amgcl::mpi::communicator comm(MPI_COMM_WORLD);
+    int cls = static_cast<int>(t.u(0, 2));
+    ptrdiff_t hi = cls == 0 ? 5 : cls == 1 ? 12 : 30;
+    ptrdiff_t n = t.u(0, hi), m = t.b() ? n : t.u(0, hi), p = t.u(0, hi);
+    Csr<blk2> A = gen_global_blk(t, n, m), Bm = gen_global_blk(t, m, p);
+    std::vector<ptrdiff_t> rdom = gen_partition(t, n, k), cdom = (n == m && t.b()) ? rdom : gen_partition(t, m, k), pdom = gen_partition(t, p, k);
+    std::vector<rhs2> xg(m), yg(n), zg(n);
+    for (auto *v : {&xg, &yg, &zg}) for (auto &e : *v) { e(0) = static_cast<double>(t.u(-3, 3)); e(1) = static_cast<double>(t.u(-3, 3)); }
+    double alpha = static_cast<double>(t.u(-2, 2)), beta = static_cast<double>(t.u(-2, 2));
+    int nonempty = 0; for (int r = 0; r < k; ++r) nonempty += rdom[r + 1] > rdom[r];
+    long remote_entries = 0;
+    for (int r = 0; r < k; ++r) for (ptrdiff_t i = rdom[r]; i < rdom[r + 1]; ++i) for (ptrdiff_t j = A.ptr[i]; j < A.ptr[i + 1]; ++j) if (A.col[j] < cdom[r] || A.col[j] >= cdom[r + 1]) ++remote_entries;
+    c.nontrivial = nonempty >= 2 && remote_entries > 0;
+    c.label("val:blk2"); c.label(nonempty < k ? "has-empty-rank" : "all-ranks-own-rows"); c.label(remote_entries ? "remote-columns" : "no-remote-columns");
+    c.desc << "dist<blk2> ranks=" << k << " " << describe(A, "A") << " " << describe(Bm, "B") << " rows:"; for (auto d : rdom) c.desc << d << ","; c.desc << " cols:"; for (auto d : cdom) c.desc << d << ",";
+    std::string cerr_;
+    Csr<blk2> Al = strip(A, rdom[me], rdom[me + 1]), Bl = strip(Bm, cdom[me], cdom[me + 1]);
+    auto tupA = std::make_tuple(static_cast<size_t>(Al.n), Al.ptr, Al.col, Al.val);
+    auto tupB = std::make_tuple(static_cast<size_t>(Bl.n), Bl.ptr, Bl.col, Bl.val);
+    DMB dA(comm, tupA, cdom[me + 1] - cdom[me]);
+    DMB dB(comm, tupB, pdom[me + 1] - pdom[me]);
+    ptrdiff_t gr = dA.glob_rows(), gc = dA.glob_cols(), gz = dA.glob_nonzeros();
+    auto dT = amgcl::mpi::transpose(dA);
+    Dense<cplx> asmT = assemble_blk(*dT, m, n, cdom[me], cerr_);
+    auto dP = amgcl::mpi::product(dA, dB);
+    Dense<cplx> asmP = assemble_blk(*dP, n, p, rdom[me], cerr_);
+    dA.move_to_backend();
+    std::vector<rhs2> xl(xg.begin() + cdom[me], xg.begin() + cdom[me + 1]), yl(yg.begin() + rdom[me], yg.begin() + rdom[me + 1]), zl(zg.begin() + rdom[me], zg.begin() + rdom[me + 1]);
+    std::vector<rhs2> y1 = yl; ab::spmv(alpha, dA, xl, beta, y1);
+    std::vector<rhs2> r1(yl.size()); ab::residual(yl, dA, xl, r1);
+    amgcl::mpi::inner_product ip(comm);
+    double dot = ip(yl, zl);
+    auto flat = [](const std::vector<rhs2> &v) { std::vector<double> f(v.size() * 2); for (size_t i = 0; i < v.size(); ++i) { f[2 * i] = v[i](0); f[2 * i + 1] = v[i](1); } return f; };
+    std::vector<double> Y1 = allgatherv(flat(y1), MPI_DOUBLE), R1 = allgatherv(flat(r1), MPI_DOUBLE);
+    std::vector<double> allsc = allgatherv(std::vector<double>{double(gr), double(gc), double(gz), dot}, MPI_DOUBLE);
+    mpi_checked([&]() {
+        VF_REQUIRE(cerr_.empty(), cerr_);
+        Dense<cplx> DA = dense_blk(A), DB = dense_blk(Bm);
+        for (int r = 0; r < k; ++r) {
+            const double *q = &allsc[r * 4];
+            VF_REQUIRE(q[0] == double(n) && q[1] == double(m) && q[2] == double(A.nnz()), "global sizes on rank " << r << ": " << q[0] << "x" << q[1] << " nnz " << q[2]);
+            VF_REQUIRE(memcmp(&q[3], &allsc[3], 8) == 0, "inner product differs between rank 0 (" << allsc[3] << ") and rank " << r << " (" << q[3] << ")");
+        }
+        Dense<cplx> DT(2 * m, 2 * n); for (ptrdiff_t i = 0; i < 2 * n; ++i) for (ptrdiff_t j = 0; j < 2 * m; ++j) DT(j, i) = DA(i, j);
+        require_equal(asmT, DT, "mpi::transpose (block values: blocks transposed)");
+        require_equal(asmP, matmul(DA, DB), "mpi::product (block values)");
+        VF_REQUIRE(static_cast<ptrdiff_t>(Y1.size()) == 2 * n && static_cast<ptrdiff_t>(R1.size()) == 2 * n, "gathered vector length");
+        double d = 0;
+        for (ptrdiff_t i = 0; i < n; ++i) for (int pq = 0; pq < 2; ++pq) {
+            double ax = 0; for (ptrdiff_t j = 0; j < m; ++j) for (int q = 0; q < 2; ++q) ax += DA(2 * i + pq, 2 * j + q).real() * xg[j](q);
+            VF_REQUIRE(Y1[2 * i + pq] == alpha * ax + beta * yg[i](pq), "distributed block spmv component " << 2 * i + pq << ": " << Y1[2 * i + pq] << " vs " << alpha * ax + beta * yg[i](pq));
+            VF_REQUIRE(R1[2 * i + pq] == yg[i](pq) - ax, "distributed block residual component " << 2 * i + pq);
+            d += yg[i](pq) * zg[i](pq);
+        }
+        VF_REQUIRE(allsc[3] == d, "mpi::inner_product on block vectors " << allsc[3] << " vs serial " << d);
+    });
+}
+
 // exhaustive partitions: all compositions of n<=6 rows into k parts (zeros included) with a fixed family of matrices
 static void prop_partitions(Tape &t, Ctx &c) {
     typedef ab::builtin<double> B;
@@ -231,6 +328,7 @@ static std::vector<Prop> props() {
         Prop("algebra_double", prop_algebra<double>, 150, 1500, 100, 40, {1}, 1, 2),
         Prop("algebra_complex", prop_algebra<cplx>, 60, 600, 100, 40, {1}, 1, 1),
         Prop("partitions", prop_partitions, 60, 600, 100, 2, {1}, 1, 1),
+        Prop("algebra_blk2", prop_algebra_blk, 80, 600, 100, 60, {1}, 1, 1),
     };
 }
 
